@@ -234,6 +234,108 @@ func c25ReaderAssumptions(fs *Facts, s *c02Src) {
 	c04ParseBlock(fs, s.b, ty)
 }
 
+// FileWriter.WriteEntry: does it return the error of the flush it triggers?
+//   yes: `if shouldFlush { return fw.flushLocked() }`;  no: the flush result is discarded and the function ends with `return nil`
+func c25WriteEntryReports(s *c02Src) (Tri, string) {
+	if s.w == nil {
+		return Unknown, ""
+	}
+	fd := s.w.Func("FileWriter", "WriteEntry")
+	if fd == nil {
+		return Unknown, c02Writer
+	}
+	where := c02Where(s.w, fd)
+	calls := s.w.Calls(fd, "fw.flushLocked")
+	if len(calls) != 1 {
+		return Unknown, where
+	}
+	returned, discarded := false, false
+	ast.Inspect(fd.Body, func(n ast.Node) bool {
+		switch x := n.(type) {
+		case *ast.ReturnStmt:
+			if len(x.Results) == 1 && s.w.Str(x.Results[0]) == "fw.flushLocked()" {
+				returned = true
+			}
+		case *ast.AssignStmt:
+			if len(x.Lhs) == 1 && len(x.Rhs) == 1 && s.w.Str(x.Lhs[0]) == "_" && s.w.Str(x.Rhs[0]) == "fw.flushLocked()" {
+				discarded = true
+			}
+		case *ast.IfStmt:
+			// `if err := fw.flushLocked(); err != nil { return err }`
+			if x.Init != nil && strings.Contains(s.w.Str(x.Init), "fw.flushLocked()") && strings.Contains(s.w.Str(x.Body), "return err") {
+				returned = true
+			}
+		}
+		return true
+	})
+	last := fd.Body.List[len(fd.Body.List)-1]
+	switch {
+	case returned && !discarded:
+		return Yes, where
+	case discarded && !returned && s.w.Str(last) == "return nil":
+		return No, where
+	}
+	return Unknown, where
+}
+
+// FileWriter.Close: is the file closed on an error path (the writer would be dead), or only at the very end?
+func c25CloseKeepsFile(s *c02Src) (Tri, string) {
+	if s.w == nil {
+		return Unknown, ""
+	}
+	fd := s.w.Func("FileWriter", "Close")
+	if fd == nil {
+		return Unknown, c02Writer
+	}
+	where := c02Where(s.w, fd)
+	total := len(s.w.Calls(fd, "fw.file.Close"))
+	inErr := 0
+	for _, st := range fd.Body.List {
+		if ifs, ok := st.(*ast.IfStmt); ok && strings.Contains(s.w.Str(ifs.Cond), "err != nil") {
+			inErr += len(s.w.Calls(ifs.Body, "fw.file.Close"))
+		}
+	}
+	last := s.w.Str(fd.Body.List[len(fd.Body.List)-1])
+	switch {
+	case total == 1 && inErr == 0 && last == "return fw.file.Close()" && s.w.Contains(fd, "fw.closed = true"):
+		return Yes, where
+	case inErr > 0 && inErr == total-1:
+		return No, where
+	}
+	return Unknown, where
+}
+
+// chroniclerV2.Close and runCompactionLocked: `if err := c.writer.Close(); err != nil { …; return err }` in front of `c.writer = nil`
+func c25ChronKeepsWriter(s *c02Src) (Tri, string) {
+	if s.ch == nil {
+		return Unknown, ""
+	}
+	where := c02Chron
+	for _, fn := range []string{"Close", "runCompactionLocked"} {
+		fd := s.ch.Func("chroniclerV2", fn)
+		if fd == nil {
+			return Unknown, c02Chron
+		}
+		where = c02Where(s.ch, fd)
+		ok := false
+		ast.Inspect(fd.Body, func(n ast.Node) bool {
+			ifs, isIf := n.(*ast.IfStmt)
+			if !isIf || ifs.Init == nil || s.ch.Str(ifs.Init) != "err := c.writer.Close()" {
+				return true
+			}
+			body := s.ch.Str(ifs.Body)
+			if strings.HasSuffix(body, "return err }") && !strings.Contains(body, "c.writer = nil") && !strings.Contains(body, "c.writerClosed = true") {
+				ok = true
+			}
+			return true
+		})
+		if !ok {
+			return Unknown, where
+		}
+	}
+	return Yes, where
+}
+
 func init() {
 	Register("C25", Extractor{Import: "Hv.Props.C25", Type: "Hv.C25.Facts", Run: func(fs *Facts) {
 		s := c02Load(fs)
@@ -264,6 +366,12 @@ func init() {
 		fs.Tri("tornDataIsEOF", td, w)
 		t, w = c03CloseErrorAborts(s)
 		fs.Tri("closeErrorAborts", t, w)
+		t, w = c25WriteEntryReports(s)
+		fs.Tri("writeEntryReportsFlushError", t, w)
+		t, w = c25CloseKeepsFile(s)
+		fs.Tri("closeKeepsFileOnError", t, w)
+		t, w = c25ChronKeepsWriter(s)
+		fs.Tri("chronKeepsWriterOnCloseError", t, w)
 		c25ReaderAssumptions(fs, s)
 	}})
 }
